@@ -288,6 +288,10 @@ C14_TracebacksFirst == IsCase =>
    (/\ Unflushed(case.k, case.tb) => CCheck = "UnflushedTracebacks"
     /\ ~Unflushed(case.k, case.tb) => CCheck = CExpected)
 
+(* deliberately wrong reading of the statement ("every undeclared entry is a deviation"), which TLC must refute:   *)
+(* a permanent guard against vacuous invariants (MC_Validate_Broken.cfg)                                           *)
+Broken_EveryExtraIsDeviation == IsCase => (case.extras # {} => CExpected # "OK")
+
 (* one line per case for the harness (JSON inside a TLA+ string) *)
 EmitCase == IsCase => PrintT("CASEJ" \o ToJson([k |-> case.k, flds |-> case.flds, F |-> CF, vals |-> case.vals,
                                                 extras |-> case.extras, tb |-> case.tb, exp |-> CExpected,
